@@ -14,6 +14,31 @@ def ofOpt {α : Type} : Option α → Res α
   | some a => Res.ok a
   | none => Res.panic
 
+/-- a shift of a shift by literal amounts is one shift (`(x <<< 8) <<< 32 = x <<< 40`; side conditions by `decide`) -/
+theorem shl_shl64 (x a b : UInt64) (ha : a < 64) (hb : b < 64) (hab : a + b < 64) : x <<< a <<< b = x <<< (a + b) :=
+  (UInt64.shiftLeft_add ha hb hab).symm
+
+/-- a shift by a literal number of bytes as an opaque atom.  (`ac_rfl` compares atoms up to definitional equality;
+    comparing `x <<< 40` with `y <<< 48` as UInt64 terms makes it evaluate the literals and time out.) -/
+@[irreducible] def shB (k : Nat) (x : UInt64) : UInt64 := x <<< UInt64.ofNat k
+theorem shB8 (x : UInt64) : x <<< 8 = shB 8 x := by unfold shB; rfl
+theorem shB16 (x : UInt64) : x <<< 16 = shB 16 x := by unfold shB; rfl
+theorem shB24 (x : UInt64) : x <<< 24 = shB 24 x := by unfold shB; rfl
+theorem shB32 (x : UInt64) : x <<< 32 = shB 32 x := by unfold shB; rfl
+theorem shB40 (x : UInt64) : x <<< 40 = shB 40 x := by unfold shB; rfl
+theorem shB48 (x : UInt64) : x <<< 48 = shB 48 x := by unfold shB; rfl
+theorem shB56 (x : UInt64) : x <<< 56 = shB 56 x := by unfold shB; rfl
+
+/-- closes an equation between two ways of OR-ing shifted bytes together: shifts are distributed over `|||`,
+    nested literal shifts added up, and the rest is associativity/commutativity of `|||` — so the order and the
+    grouping in which the Go text combines the bytes (`hi<<32 | lo`, `x |= …` in any order) do not matter, while a wrong
+    shift amount or a wrong byte still leaves an unprovable goal. -/
+macro "bytes_or" : tactic =>
+  `(tactic| (
+    try simp (disch := decide) only [UInt64.shiftLeft_or, shl_shl64, UInt64.reduceAdd]
+    try simp only [shB8, shB16, shB24, shB32, shB40, shB48, shB56]
+    ac_rfl))
+
 /-- `_getLE64(p)` on a slice value = the word read `BytesW.le64` of its elements (panic iff len < 8) -/
 theorem gen_le64 (p : Slice) (h : SWF p) : Gen._getLE64 p = ofOpt (BytesW.le64 p.data) := by
   obtain ⟨arr, len⟩ := p
@@ -47,7 +72,7 @@ theorem gen_le64 (p : Slice) (h : SWF p) : Gen._getLE64 p = ofOpt (BytesW.le64 p
         simp [Slice.index]; omega
       simp only [Gen._getLE64, h0, h1, h2, h3, h4, h5, h6, h7, bind_ok, Slice.data, List.take_succ_cons,
         BytesW.le64, BytesW.le64v, ofOpt, shlU64]
-      simp
+      simp <;> bytes_or
 
 /-- `getLE64(p)` (the `switch len(p)`) never panics and is `BytesW.getLE64` of the elements -/
 theorem gen_getLE64 (p : Slice) (h : SWF p) : Gen.getLE64 p = Res.ok (BytesW.getLE64 p.data) := by
@@ -55,26 +80,29 @@ theorem gen_getLE64 (p : Slice) (h : SWF p) : Gen.getLE64 p = Res.ok (BytesW.get
   · have hd : 8 ≤ p.data.length := by rw [data_length h]; exact hl
     have e := gen_le64 p h
     rw [BytesW.le64_eq_some _ hd] at e
-    have hne : ∀ k : Int, k < 8 → ¬ (Int.ofNat p.len = k) := by
-      intro k hk; simp only [Int.ofNat_eq_natCast]; omega
-    simp only [Gen.getLE64, hne 0 (by omega), hne 1 (by omega), hne 2 (by omega), hne 3 (by omega),
-      hne 4 (by omega), hne 5 (by omega), hne 6 (by omega), hne 7 (by omega), if_false, e, ofOpt, bind_ok]
+    -- whatever chain of tests on `len(p)` the text uses (switch, `n >= 8` first, …): split them as they come; the
+    -- only reachable leaf is the call of `_getLE64`, the others contradict `8 ≤ len`
+    simp only [Gen.getLE64]
+    (repeat' split) <;>
+      first
+      | (simp only [e, ofOpt, bind_ok]; done)
+      | (exfalso; simp only [Int.ofNat_eq_natCast] at *; omega)
   · obtain ⟨arr, len⟩ := p
     unfold SWF at h
     simp only at h hl
     match len, arr, h, hl with
-    | 0, _, _, _ => simp [Gen.getLE64, Slice.data, BytesW.getLE64]
-    | 1, b0 :: _, _, _ => simp [Gen.getLE64, Slice.data, BytesW.getLE64, Slice.index]
-    | 2, b0 :: b1 :: _, _, _ => simp [Gen.getLE64, Slice.data, BytesW.getLE64, Slice.index, shlU64]
-    | 3, b0 :: b1 :: b2 :: _, _, _ => simp [Gen.getLE64, Slice.data, BytesW.getLE64, Slice.index, shlU64]
+    | 0, _, _, _ => simp [Gen.getLE64, Slice.data, BytesW.getLE64] <;> bytes_or
+    | 1, b0 :: _, _, _ => simp [Gen.getLE64, Slice.data, BytesW.getLE64, Slice.index] <;> bytes_or
+    | 2, b0 :: b1 :: _, _, _ => simp [Gen.getLE64, Slice.data, BytesW.getLE64, Slice.index, shlU64] <;> bytes_or
+    | 3, b0 :: b1 :: b2 :: _, _, _ => simp [Gen.getLE64, Slice.data, BytesW.getLE64, Slice.index, shlU64] <;> bytes_or
     | 4, b0 :: b1 :: b2 :: b3 :: _, _, _ =>
-      simp [Gen.getLE64, Gen._getLE32, Slice.data, BytesW.getLE64, BytesW.le32v, Slice.index, shlU64, shlU32]
+      simp [Gen.getLE64, Gen._getLE32, Slice.data, BytesW.getLE64, BytesW.le32v, Slice.index, shlU64, shlU32] <;> bytes_or
     | 5, b0 :: b1 :: b2 :: b3 :: b4 :: _, _, _ =>
-      simp [Gen.getLE64, Gen._getLE32, Slice.data, BytesW.getLE64, BytesW.le32v, Slice.index, shlU64, shlU32]
+      simp [Gen.getLE64, Gen._getLE32, Slice.data, BytesW.getLE64, BytesW.le32v, Slice.index, shlU64, shlU32] <;> bytes_or
     | 6, b0 :: b1 :: b2 :: b3 :: b4 :: b5 :: _, _, _ =>
-      simp [Gen.getLE64, Gen._getLE32, Slice.data, BytesW.getLE64, BytesW.le32v, Slice.index, shlU64, shlU32]
+      simp [Gen.getLE64, Gen._getLE32, Slice.data, BytesW.getLE64, BytesW.le32v, Slice.index, shlU64, shlU32] <;> bytes_or
     | 7, b0 :: b1 :: b2 :: b3 :: b4 :: b5 :: b6 :: _, _, _ =>
-      simp [Gen.getLE64, Gen._getLE32, Slice.data, BytesW.getLE64, BytesW.le32v, Slice.index, shlU64, shlU32]
+      simp [Gen.getLE64, Gen._getLE32, Slice.data, BytesW.getLE64, BytesW.le32v, Slice.index, shlU64, shlU32] <;> bytes_or
     | n + 8, _, _, hl => exact absurd (by omega) hl
 
 theorem lowBitFrom_eq (x : UInt64) : ∀ fuel i, i + fuel = 64 →
